@@ -332,6 +332,11 @@ CHECKS = {
     technique='runtime monitoring: reference model (Python unification decides success, fired goals and bindings) plus metamorphic comparison of the residual constraints over many merge orders of the same unifications and constraints; fired goals are logged by assertz so that double runs are visible',
     text='Cases of 1-4 unifications over X Y Z W and small terms and 1-4 constraints (dif/2 between variables, terms and structures sharing variables; freeze/2; when/2 with nonvar, ground, conjunctive and disjunctive conditions; every suspended goal logs its id) are run in up to 8 merge orders (constraints first, last, random interleavings); for every order success/failure, the final bindings and the multiset of logged ids must equal the model (dif fails exactly when its arguments become identical, a suspended goal runs exactly once iff its condition holds at the end), and the residual constraints, identified by kind and carried ids, must be the same for all orders.',
     note='Known findings: K56 (with dif/2 present, freeze/when goals run with their variable unbound or several times), K57 (when/2 over several variables runs its goal twice). library(when) has no ?=/2 condition; unifications that would build cyclic terms are re-drawn (C24).'),
+ 'C54': dict(
+    level='exploration',
+    technique='runtime monitoring: differential between library(reif) and the explicit disjunction over =/2 and dif/2 generated by the check, with all remaining variables labelled so that both answer lists are ground',
+    text='Random conditions of depth <= 3 over X = Y, dif(X, Y), conjunction and disjunction (operands: three variables, constants, f(Var)), with any subset of the variables bound beforehand, are run through if_/3 (also nested) next to their defining disjunction; tfilter/3, tpartition/4, memberd_t/3 and tmember/2 with an =/3 test on lists of length 0-4 over variables and constants are run next to explicit recursive definitions; after labelling X, Y, Z over a five-element domain both sides must give the same answers with the same multiplicity.',
+    note='Only (=)/3-based tests are passed to the list predicates; residual constraints are never compared directly because labelling decides them.'),
 }
 
 NOT_APPLICABLE_REASON_UNBUILT = ('check designed in DESIGN.md but not built/validated yet in this session; '
